@@ -5,6 +5,7 @@ import (
 	"go/constant"
 	"go/token"
 	"go/types"
+	"strconv"
 
 	"golibcheck/internal/core"
 )
@@ -19,8 +20,9 @@ import (
 type cval struct {
 	n   int64
 	s   string
-	arr []int64
-	k   byte // 'i' integer, 's' string, 'a' array
+	arr  []int64
+	strs []string
+	k    byte // 'i' integer, 's' string, 'a' integer array, 'S' array of strings
 }
 
 type constEvaluator struct {
@@ -75,6 +77,9 @@ func zeroOf(t types.Type) *cval {
 		if b, ok := u.Elem().Underlying().(*types.Basic); ok && b.Info()&types.IsInteger != 0 && u.Len() <= 1<<16 {
 			return &cval{k: 'a', arr: make([]int64, u.Len())}
 		}
+		if b, ok := u.Elem().Underlying().(*types.Basic); ok && b.Info()&types.IsString != 0 && u.Len() <= 1<<16 {
+			return &cval{k: 'S', strs: make([]string, u.Len())}
+		}
 	}
 	return nil
 }
@@ -98,19 +103,33 @@ func (ce *constEvaluator) call(info *types.Info, c *ast.CallExpr, args []*cval) 
 	if hf == nil || hf.Decl.Body == nil || hf.Decl.Recv != nil {
 		return nil, false
 	}
-	fr := &cframe{info: hf.Pkg.TypesInfo, env: map[types.Object]*cval{}}
+	return ce.run(hf.Pkg.TypesInfo, hf.Decl.Type, hf.Decl.Body, args, nil)
+}
+
+// run evaluates a function body (a declared function, or a function literal called on the spot, which
+// sees the variables of the frame it is written in).
+func (ce *constEvaluator) run(info *types.Info, ft *ast.FuncType, body *ast.BlockStmt, args []*cval, outer map[types.Object]*cval) (*cval, bool) {
+	fr := &cframe{info: info, env: map[types.Object]*cval{}}
+	for o, v := range outer {
+		fr.env[o] = v
+	}
 	i := 0
-	for _, f := range hf.Decl.Type.Params.List {
-		for _, n := range f.Names {
-			if i >= len(args) {
-				return nil, false
+	if ft.Params != nil {
+		for _, f := range ft.Params.List {
+			for _, n := range f.Names {
+				if i >= len(args) {
+					return nil, false
+				}
+				fr.env[fr.info.Defs[n]] = args[i]
+				i++
 			}
-			fr.env[fr.info.Defs[n]] = args[i]
-			i++
 		}
 	}
-	if hf.Decl.Type.Results != nil {
-		for _, f := range hf.Decl.Type.Results.List {
+	if i != len(args) {
+		return nil, false
+	}
+	if ft.Results != nil {
+		for _, f := range ft.Results.List {
 			for _, n := range f.Names {
 				o := fr.info.Defs[n]
 				z := zeroOf(o.Type())
@@ -123,7 +142,7 @@ func (ce *constEvaluator) call(info *types.Info, c *ast.CallExpr, args []*cval) 
 		}
 	}
 	ce.depth++
-	ok := ce.block(fr, hf.Decl.Body.List)
+	ok := ce.block(fr, body.List)
 	ce.depth--
 	if !ok {
 		return nil, false
@@ -160,21 +179,35 @@ func (ce *constEvaluator) assign(fr *cframe, lhs ast.Expr, v *cval) bool {
 			return false
 		}
 		if v.k == 'a' {
-			v = &cval{k: 'a', arr: append([]int64(nil), v.arr...)}
+			if _, isArr := o.Type().Underlying().(*types.Array); isArr {
+				v = &cval{k: 'a', arr: append([]int64(nil), v.arr...)}
+			}
+		}
+		if v.k == 'S' {
+			if _, isArr := o.Type().Underlying().(*types.Array); isArr {
+				v = &cval{k: 'S', strs: append([]string(nil), v.strs...)}
+			}
 		}
 		fr.env[o] = v
 		return true
 	case *ast.IndexExpr:
 		base, ok := ce.expr(fr, l.X)
-		if !ok || base.k != 'a' || v.k != 'i' {
+		if !ok {
 			return false
 		}
 		ix, ok := ce.expr(fr, l.Index)
-		if !ok || ix.k != 'i' || ix.n < 0 || ix.n >= int64(len(base.arr)) {
+		if !ok || ix.k != 'i' || ix.n < 0 {
 			return false
 		}
-		base.arr[ix.n] = v.n
-		return true
+		switch {
+		case base.k == 'a' && v.k == 'i' && ix.n < int64(len(base.arr)):
+			base.arr[ix.n] = v.n
+			return true
+		case base.k == 'S' && v.k == 's' && ix.n < int64(len(base.strs)):
+			base.strs[ix.n] = v.s
+			return true
+		}
+		return false
 	}
 	return false
 }
@@ -311,6 +344,8 @@ func (ce *constEvaluator) stmt(fr *cframe, s ast.Stmt) bool {
 			n = len(x.s)
 		case 'a':
 			n = len(x.arr)
+		case 'S':
+			n = len(x.strs)
 		case 'i':
 			n = int(x.n)
 		}
@@ -320,15 +355,21 @@ func (ce *constEvaluator) stmt(fr *cframe, s ast.Stmt) bool {
 			}
 			if v.Value != nil {
 				var el int64
-				if x.k == 's' {
-					el = int64(x.s[i])
-				} else if x.k == 'a' {
-					el = x.arr[i]
+				if x.k == 'S' {
+					if !ce.assign(fr, v.Value, &cval{k: 's', s: x.strs[i]}) {
+						return false
+					}
 				} else {
-					return false
-				}
-				if !ce.assign(fr, v.Value, &cval{k: 'i', n: el}) {
-					return false
+					if x.k == 's' {
+						el = int64(x.s[i])
+					} else if x.k == 'a' {
+						el = x.arr[i]
+					} else {
+						return false
+					}
+					if !ce.assign(fr, v.Value, &cval{k: 'i', n: el}) {
+						return false
+					}
 				}
 			}
 			if !ce.block(fr, v.Body.List) {
@@ -431,6 +472,21 @@ func (ce *constEvaluator) expr(fr *cframe, e ast.Expr) (*cval, bool) {
 		return nil, false
 	case *ast.BinaryExpr:
 		a, ok1 := ce.expr(fr, v.X)
+		if ok1 && a.k == 's' {
+			b, ok2 := ce.expr(fr, v.Y)
+			if !ok2 || b.k != 's' {
+				return nil, false
+			}
+			switch v.Op {
+			case token.ADD:
+				return &cval{k: 's', s: a.s + b.s}, true
+			case token.EQL:
+				return &cval{k: 'i', n: b2i(a.s == b.s)}, true
+			case token.NEQ:
+				return &cval{k: 'i', n: b2i(a.s != b.s)}, true
+			}
+			return nil, false
+		}
 		if !ok1 || a.k != 'i' {
 			return nil, false
 		}
@@ -516,9 +572,33 @@ func (ce *constEvaluator) expr(fr *cframe, e ast.Expr) (*cval, bool) {
 				return nil, false
 			}
 			return &cval{k: 'i', n: base.arr[ix.n]}, true
+		case 'S':
+			if ix.n >= int64(len(base.strs)) {
+				return nil, false
+			}
+			return &cval{k: 's', s: base.strs[ix.n]}, true
 		}
 		return nil, false
 	case *ast.CompositeLit:
+		if isStringSeq(fr.info.TypeOf(v)) {
+			z := &cval{k: 'S'}
+			if at, ok := fr.info.TypeOf(v).Underlying().(*types.Array); ok {
+				z.strs = make([]string, at.Len())
+			} else {
+				z.strs = make([]string, len(v.Elts))
+			}
+			for i, el := range v.Elts {
+				if _, isKV := el.(*ast.KeyValueExpr); isKV {
+					return nil, false
+				}
+				x, ok := ce.expr(fr, el)
+				if !ok || x.k != 's' || i >= len(z.strs) {
+					return nil, false
+				}
+				z.strs[i] = x.s
+			}
+			return z, true
+		}
 		z := zeroOf(fr.info.TypeOf(v))
 		if z == nil || z.k != 'a' {
 			if sl, ok := fr.info.TypeOf(v).Underlying().(*types.Slice); ok {
@@ -580,6 +660,26 @@ func (ce *constEvaluator) expr(fr *cframe, e ast.Expr) (*cval, bool) {
 					return &cval{k: 'i', n: int64(len(x.s))}, true
 				case 'a':
 					return &cval{k: 'i', n: int64(len(x.arr))}, true
+				case 'S':
+					return &cval{k: 'i', n: int64(len(x.strs))}, true
+				}
+				return nil, false
+			}
+		}
+		if id, ok := v.Fun.(*ast.Ident); ok && id.Name == "make" && len(v.Args) == 2 {
+			if _, isB := fr.info.Uses[id].(*types.Builtin); isB {
+				n, ok := ce.expr(fr, v.Args[1])
+				if !ok || n.k != 'i' || n.n < 0 || n.n > 1<<16 {
+					return nil, false
+				}
+				t := fr.info.TypeOf(v)
+				if isStringSeq(t) {
+					return &cval{k: 'S', strs: make([]string, n.n)}, true
+				}
+				if sl, ok := t.Underlying().(*types.Slice); ok {
+					if b, ok := sl.Elem().Underlying().(*types.Basic); ok && b.Info()&types.IsInteger != 0 {
+						return &cval{k: 'a', arr: make([]int64, n.n)}, true
+					}
 				}
 				return nil, false
 			}
@@ -592,7 +692,37 @@ func (ce *constEvaluator) expr(fr *cframe, e ast.Expr) (*cval, bool) {
 			}
 			args = append(args, x)
 		}
+		if fl, ok := ast.Unparen(v.Fun).(*ast.FuncLit); ok {
+			if ce.depth > 6 {
+				return nil, false
+			}
+			return ce.run(fr.info, fl.Type, fl.Body, args, fr.env)
+		}
+		// the standard library's integer formatters, given constants
+		if isCallTo(fr.info, v, "strconv", "Itoa") && len(args) == 1 && args[0].k == 'i' {
+			return &cval{k: 's', s: strconv.FormatInt(args[0].n, 10)}, true
+		}
+		if isCallTo(fr.info, v, "strconv", "FormatInt") && len(args) == 2 && args[0].k == 'i' && args[1].k == 'i' && args[1].n >= 2 && args[1].n <= 36 {
+			return &cval{k: 's', s: strconv.FormatInt(args[0].n, int(args[1].n))}, true
+		}
 		return ce.call(fr.info, v, args)
 	}
 	return nil, false
+}
+
+func isStringSeq(t types.Type) bool {
+	if t == nil {
+		return false
+	}
+	var el types.Type
+	switch u := t.Underlying().(type) {
+	case *types.Array:
+		el = u.Elem()
+	case *types.Slice:
+		el = u.Elem()
+	default:
+		return false
+	}
+	b, ok := el.Underlying().(*types.Basic)
+	return ok && b.Info()&types.IsString != 0
 }
